@@ -167,8 +167,10 @@ pub fn check(c: &Case13, st: &mut Stats, bin: &std::path::Path, scratch: &std::p
     let lvl = format!("-O{}", c.sub.min(2));
     let args: Vec<&str> = if c.sub == 3 { vec!["--color", "never", "check", path.to_str().unwrap()] } else { vec!["--color", "never", "run", &lvl, path.to_str().unwrap()] };
     let mut o = proc::RunOpts::new(&c.stdin);
-    o.cpu_secs = Some(20);
-    o.wall = Duration::from_secs(120);
+    // level-2 pre-execution is quadratic in the number of commands: long programs get a CPU limit to match
+    let cpu = if c.file.len() > 60_000 { 120 } else { 20 };
+    o.cpu_secs = Some(cpu);
+    o.wall = Duration::from_secs(120 + 4 * cpu);
     o.out_cap = 8 << 20;
     let r = proc::run(bin, &args, &o);
     let _ = std::fs::remove_dir_all(&dir);
@@ -370,6 +372,18 @@ pub fn run(ctx: &Ctx, out: &mut Outcome) {
     {
         let (bin, scratch) = (bin.clone(), scratch.clone());
         search::<Case13>(ctx, out, "wide-listings", t.pick(400, 3_000), &wide_listing_strategy, &move |c, st| check(c, st, &bin, &scratch, 40_000));
+    }
+    {
+        // kilobytes of multi-byte output produced without input (at level 2: during pre-execution)
+        let (bin, scratch) = (bin.clone(), scratch.clone());
+        search::<Case13>(
+            ctx,
+            out,
+            "big-output",
+            t.pick(32, 200),
+            &|| (super::c02::big_output_strategy(), 0u8..3).prop_map(|(c, sub)| Case13 { file: c.0.text().into_bytes(), name: NameKind::Hyeong, stdin: b"xy\n".to_vec(), sub }).boxed(),
+            &move |c, st| check(c, st, &bin, &scratch, 400_000),
+        );
     }
     search::<Case13>(ctx, out, "deep-areas", t.pick(300, 3_000), &deep_strategy, &move |c, st| check(c, st, &bin, &scratch, budget));
 }
